@@ -557,11 +557,71 @@ func tableBigScan(tr *tracer.T, rng *rand.Rand, witness bool) {
 		r.iter(tr, op)
 		r.lookup(tr, op)
 	}
+	// a streamed read whose consumer is slow: an update lands between two messages and touches pairs
+	// not yet delivered.  The stream must still be ONE point-in-time view (C09).
+	tr.Emit(map[string]any{"ev": "rec_start"})
+	{
+		op := fullRange()
+		res, err := r.f.Lookup(fsm.IteratorRequest{RangeOp: op.RangePB()})
+		if err != nil {
+			die("iter: %v", err)
+		}
+		var chunks []m.Resp
+		nUpd := int64(0)
+		collectSeq(res, func(x *regattapb.ResponseOp_Range) {
+			chunks = append(chunks, m.RangeResp(x))
+			if len(chunks) == 1 {
+				// delete the last key, overwrite the one before it, add a new last key
+				idx++
+				c := m.Cmd{T: "SEQ", Cmds: []m.Cmd{
+					{T: "DEL", K: keys[len(keys)-1]},
+					{T: "PUT", K: keys[len(keys)-2], V: []byte("changed")},
+					{T: "PUT", K: []byte{'z'}, V: []byte("new")},
+				}}
+				r.update(tr, []logEntry{{I: idx, LI: -1, C: c}})
+				nUpd++
+			}
+		})
+		tr.Emit(map[string]any{"ev": "iter_at", "rep": 1, "op": op, "chunks": chunks, "s": 0, "e": nUpd})
+	}
 	if witness {
 		// directed witness of known finding DelPrevSizeCut (C01): range delete with prev_kv over > 4 MiB
 		idx++
 		r.update(tr, []logEntry{{I: idx, LI: -1, C: m.Cmd{T: "DEL", K: []byte{'k'}, End: m.End{Has: true, B: []byte{0}}, Prev: true, Count: true}}})
 		r.lookup(tr, fullRange())
+	}
+}
+
+// tableManyPairs : C09 message size accounting. ~210 pairs of ~20 KB: a message holds ~200 pairs, so
+// per-pair framing adds up to more than the 1 KiB safety margin of the cut.
+func tableManyPairs(tr *tracer.T, rng *rand.Rand) {
+	tr.Emit(map[string]any{"ev": "reset"})
+	r := newRep(1, fsm.RecoveryTypeSnapshot)
+	defer r.close()
+	n := 205 + rng.Intn(40)
+	sz := 19000 + rng.Intn(2500)
+	load := m.Cmd{T: "PUTB"}
+	for i := 0; i < n; i++ {
+		v := make([]byte, sz+rng.Intn(3))
+		for j := range v {
+			v[j] = byte(i + j)
+		}
+		load.KVs = append(load.KVs, m.KV{K: []byte{'m', byte(i / 200), byte(i % 200)}, V: v})
+	}
+	r.update(tr, []logEntry{{I: 1, LI: -1, C: load}})
+	for i := 0; i < 4; i++ {
+		op := fullRange()
+		switch i {
+		case 1:
+			op.K = []byte{'m', 0, 5}
+		case 2:
+			op.Limit = int64(n - 1)
+		case 3:
+			op.K = []byte{'m', 0, 100}
+			op.End = m.End{Has: true, B: []byte{'m', 1, 30}}
+		}
+		r.iter(tr, op)
+		r.lookup(tr, op)
 	}
 }
 
@@ -660,7 +720,11 @@ func init() {
 			case "conc":
 				tableConc(tr, rng, *ops)
 			case "bigscan":
-				tableBigScan(tr, rng, *mix == "witness")
+				if b%3 == 2 && *mix != "witness" {
+					tableManyPairs(tr, rng)
+				} else {
+					tableBigScan(tr, rng, *mix == "witness")
+				}
 			default:
 				die("bad mode")
 			}
